@@ -1149,6 +1149,14 @@ fn sc_fee_floor_boundaries(t: &mut Tracer) {
                 w.rsim("o.fine", &coin(ask, "uusdc"), "uweth");
             }
             w.rsim("o.fine", &coin(1_000_000_000_000_000_000, "uweth"), "uusdc");
+        }
+        // both reserves at 10^24 units (a million tokens of 18 decimals), small requests
+        if w.create_pool(&o, &["uusd", "uweth"], &[18, 18], fees(300, 0, 0, &[]), CP, Some("big18"), &ok) {
+            w.provide(&a, "o.big18", &sorted(vec![coin(1_000_000_000_000_000_000_000_000, "uusd"), coin(1_000_000_000_000_000_000_000_000, "uweth")]), None, None, None, None, None);
+            for ask in [100_000_000_000_000u128, 1_000_000, 123_456_789_012_345_678] {
+                w.rsim("o.big18", &coin(ask, "uusd"), "uweth");
+                w.rsim("o.big18", &coin(ask, "uweth"), "uusd");
+            }
             w.provide(&a, "o.fine", &[coin(20_000_000_000_001, "uusdc")], None, None, None, None, Some(Decimal::percent(50)));
         }
     }
